@@ -41,7 +41,8 @@ TEXT = {
           "evaluation in (Z/p)[X] (C14_eval_spec, C14_eval_zero_iff) - as many as the field has (exhaustive evaluation for p <= 20000, "
           "deg gcd(f, x^p - x) by the model's modular powering otherwise - the powering is proved to be exponentiation modulo f, "
           "fpPowMod_spec, on top of the proved division divMod_spec, and the number of distinct roots is the degree of gcd(f, X^p - X), "
-          "roots_count_gcd; not proved: that the model's extended Euclid returns that gcd); constraint feasible sets over Z_p must satisfy the set "
+          "roots_count_gcd, and the model's extended Euclid returns that gcd, xgcd_gcd - altogether rootCountFp_spec: the model's count is "
+          "the number of distinct roots for every prime below 2^4096); constraint feasible sets over Z_p must satisfy the set "
           "representation invariant and be exactly the solution set (all residues for small p; probes + root count for large p), "
           "lp_feasibility_set_int_contains must agree on every probe; constraint_evaluate_Zp and reduce_degree_Zp (same function on "
           "Z_p^2, degrees < p) are compared exactly.",
